@@ -5,7 +5,11 @@ import IstioModel.C20.Spec
 /-! Line-protocol driver for C20. See harness/c20.
 
   case <n> ...                      -> ok            (state reset)
-  cfg <24 tokens>                   -> ok <#v4 lines> <#v6 lines> | invalid:<why> | error:<why> | unmodelled:<why>
+  cfg <24 tokens>                   -> ok <#v4 lines> <#v6 lines> cmds=<command log> | invalid:<why> | error:<why> | unmodelled:<why>
+  envcfg <24 flag tokens> <envoyUID> <resolv.conf servers>
+                                    -> same, the configuration going through DefaultConfig + flags +
+                                       FillConfigFromEnvironment (tokens 10,11,24 are the environment variables, `~` = unset,
+                                       token 21 says whether the pod address is IPv6)
   r <4|6> <i>                       -> line i of the iptables-restore input of that family | none
   p <hook> <4|6> <proto> <src> <dst> <sport> <dport> <inIf> <outIf> <uid> <gid> <ctstate> <mark> <connmark>
                                     -> the packet's fate: stream `packets`: `specFate` (the policy stated on
@@ -64,13 +68,9 @@ def rawOfTokens : List String → Option RawConfig
            enableIPv6 := tokBool v6, dnsV4 := decList d4, dnsV6 := decList d6, loCidr := dec lo }
   | _ => none
 
-def step (s : DState) (toks : List String) : DState × String :=
-  match toks with
-  | "case" :: _ => (s.reset, "ok")
-  | "cfg" :: rest =>
-    match rawOfTokens rest with
-    | none => (s.reset, "bad-op")
-    | some raw =>
+def optEnv (t : String) : Option String := if t == "~" then none else some (dec t)
+
+def compileRaw (s : DState) (raw : RawConfig) : DState × String :=
       match raw.parse with
       | .invalid w => (s.reset, "invalid:" ++ w)
       | .error w => (s.reset, "error:" ++ w)
@@ -78,7 +78,25 @@ def step (s : DState) (toks : List String) : DState × String :=
       | .ok c =>
         let l4 := (restoreLines (rulesOf c .v4)).toArray
         let l6 := if c.enableIPv6 then (restoreLines (rulesOf c .v6)).toArray else #[]
-        ({ spec := s.spec, cfg := some c, v4 := l4, v6 := l6 }, s!"ok {l4.size} {l6.size}")
+        ({ spec := s.spec, cfg := some c, v4 := l4, v6 := l6 },
+          s!"ok {l4.size} {l6.size} cmds={",".intercalate ((commandLog c).map enc)}")
+
+def step (s : DState) (toks : List String) : DState × String :=
+  match toks with
+  | "case" :: _ => (s.reset, "ok")
+  | "cfg" :: rest =>
+    match rawOfTokens rest with
+    | none => (s.reset, "bad-op")
+    | some raw => compileRaw s raw
+  | "envcfg" :: rest =>
+    match rawOfTokens (rest.take 24), rest.drop 24 with
+    | some flags, [uid, resolv] =>
+      let e : Environment := {
+        ownerGroupsInclude := optEnv (rest.getD 9 "~"), ownerGroupsExclude := optEnv (rest.getD 10 "~"),
+        loCidr := optEnv (rest.getD 23 "~"), envoyUID := dec uid, localIsV6 := flags.enableIPv6,
+        resolvConf := decList resolv }
+      compileRaw s (flags.fill e)
+    | _, _ => (s.reset, "bad-op")
   | ["r", fam, i] =>
     let arr := if fam == "6" then s.v6 else s.v4
     match i.toNat? with
